@@ -258,7 +258,7 @@ type VerifDVal struct {
 	Nil  bool     `json:"nil,omitempty"`
 	B    []byte   `json:"b,omitempty"`
 	Ints []int64  `json:"ints,omitempty"`
-	Strs []string `json:"strs,omitempty"`
+	Strs [][]byte `json:"strs,omitempty"` // strings as bytes (JSON would mangle invalid UTF-8)
 }
 
 // VerifDecErrID maps a decoder error to the model's err_id.
@@ -463,7 +463,11 @@ func VerifDecodeScript(buf []byte, start int, ops []VerifDOp) (res VerifDecodeRe
 			if x == nil {
 				v = VerifDVal{T: "strs", Nil: true}
 			} else {
-				v = VerifDVal{T: "strs", Strs: append([]string{}, x...)}
+				ss := make([][]byte, len(x))
+				for i := range x {
+					ss[i] = []byte(x[i])
+				}
+				v = VerifDVal{T: "strs", Strs: ss}
 			}
 		case "subset":
 			var x packetDecoder
